@@ -120,6 +120,11 @@ def fast_records_auto_taken(ctx, rule='A5f'):
         raise AnalysisError('_get_graph: returned record of taken options not found')
     record = rets[-1].value.elts[0].args[0].id
     calls_ = [c for c in walk_fn(fn) if isinstance(c, ast.Call) and call_name(c) == 'get_taken_single_selection_choices']
+    # extract-method: a private helper of the class that reads them back and returns them counts as the read-back
+    readers = {h.name for h in unit_functions(ctx.prog, outer)[1:] if h is not fn and any(
+        isinstance(c, ast.Call) and call_name(c) == 'get_taken_single_selection_choices' for c in walk_fn(h)) and
+        any(r.value is not None for r in returns_of(h))}
+    calls_ += [c for c in walk_fn(fn) if isinstance(c, ast.Call) and call_name(c) in readers]
     # names that (transitively) hold the result of that call
     holders = set()
     changed = True
